@@ -144,6 +144,7 @@ func reflectAliases(c *Ctx, fn *ssa.Function, param ssa.Value) (map[ssa.Value]bo
 
 func checkC13(c *Ctx, r *Report) {
 	defer representationTestRule(c, r)
+	defer nothingToStoreRule(c, r)
 	defer inheritedPolicyRule(c, r)
 	r.Assumption("maps and pointed-to objects shared by the struct may be modified by a failing Unpack (excluded by the property); top-level slice/array targets are written in place (the statement is about structs)")
 	r.Assumption("which fields are overwritten for which subset of settings is value-level and not decided")
@@ -557,5 +558,41 @@ func inheritedPolicyRule(c *Ctx, r *Report) {
 	})
 	if n == 0 {
 		r.add("R13g", c.FnName(af), "policy replaced only when the tag names one", c.Pos(af.Pos()), Undecided, true, "accessField does not set options.configValueHandling")
+	}
+}
+
+// nothingToStoreRule (R13h): the routines of the unpack family answer (value, error). The value is what the caller
+// stores in the place it handed over — also when that place could only be handed over as a copy (a struct, map or
+// array held by an interface or a map entry is unpacked into a temporary, reifyMergeValue's `!old.CanSet()` branch).
+// A successful answer without a value ("merged in place, nothing to store") drops what was unpacked into such a
+// temporary: the settings the configuration names for it never reach the target, and no error says so.
+func nothingToStoreRule(c *Ctx, r *Report) {
+	r.Rule("R13h", "no routine of the unpack family returns the zero reflect.Value together with an error that can be nil: a successful answer carries the value the caller has to store", 14)
+	errT := c.Named("", "Error")
+	for _, fn := range c.SrcFuncs() {
+		if fn.Pkg != c.SSA[""] {
+			continue
+		}
+		res := fn.Signature.Results()
+		if res.Len() != 2 || !isNamed(res.At(0).Type(), "reflect", "Value") || namedOf(res.At(1).Type()) != errT {
+			continue
+		}
+		bad := ""
+		n := 0
+		for _, ret := range Returns(fn) {
+			if len(ret.Results) != 2 {
+				continue
+			}
+			n++
+			k, isConst := RetVal(ret, 0).(*ssa.Const)
+			if !isConst || k.Value != nil {
+				continue
+			}
+			if nilness(RetVal(ret, 1), ret.Block(), 0) != 1 {
+				bad = c.Pos(ret.Pos())
+			}
+		}
+		r.Check(bad == "", "R13h", c.FnName(fn), "a value with every successful answer", c.Pos(fn.Pos()), fmt.Sprintf("%d returns: the zero Value only next to an error that is not nil", n),
+			"a return hands back the zero reflect.Value while the error can be nil (at "+bad+"): the caller has nothing to store, and what was unpacked into a temporary copy of a struct, map or array held by an interface or a map entry is lost without an error")
 	}
 }
